@@ -4,6 +4,7 @@ file-system events whose path lies under a scratch root and raises OSError at
 the k-th one."""
 
 import os
+import time
 import sys
 import tempfile
 
@@ -32,8 +33,14 @@ class InjectedFault(OSError):
     pass
 
 
+class InjectedPermission(InjectedFault, PermissionError):
+    """the persistent flavour: the same file keeps refusing (retry loops see it every time)"""
+
+
 class Injector:
     def __init__(self):
+        self.persistent = False
+        self.sticky_path = None
         self.active = False
         self.root = None
         self.count = 0
@@ -75,13 +82,23 @@ class Injector:
             return
         self.count += 1
         self.log.append((event, os.path.relpath(hit, root), mode))
+        if self.sticky_path is not None:
+            if hit == self.sticky_path:
+                raise InjectedPermission(13, "injected persistent fault: %s %s" % (event, os.path.relpath(hit, root)))
+            return
+        if self.persistent and self.arm_at is not None and self.count == self.arm_at:
+            self.arm_at = None
+            self.fired = self.log[-1]
+            self.sticky_path = hit          # every later operation on this very file fails the same way
+            raise InjectedPermission(13, "injected persistent fault at event %d: %s %s" % (
+                self.count, event, os.path.relpath(hit, root)))
         if self.arm_at is not None and self.count == self.arm_at:
             self.arm_at = None
             self.fired = self.log[-1]
             self.active = False         # one fault per activation; cleanup code runs undisturbed
             raise InjectedFault("injected fault at event %d: %s %s" % (self.count, event, os.path.relpath(hit, root)))
 
-    def run(self, root, fn, arm_at=None):
+    def run(self, root, fn, arm_at=None, persistent=False):
         """Run fn() with the hook active under ``root``.
 
         Returns (result | None, exception | None, number of events seen, fired event | None).
@@ -92,10 +109,14 @@ class Injector:
         self.log = []
         self.fired = None
         self.arm_at = arm_at
+        self.persistent = persistent
+        self.sticky_path = None
         old_tmp = tempfile.tempdir
         tmpd = os.path.join(self.root, "_tmp")
         os.makedirs(tmpd, exist_ok=True)
         tempfile.tempdir = tmpd
+        old_sleep = time.sleep
+        time.sleep = lambda seconds: None       # retry loops wait between attempts: the harness owns the clock
         self.active = True
         try:
             res = fn()
@@ -104,6 +125,8 @@ class Injector:
             res, exc = None, e
         finally:
             self.active = False
+            self.sticky_path = None
+            time.sleep = old_sleep
             tempfile.tempdir = old_tmp
         return res, exc, self.count, self.fired
 
